@@ -47,7 +47,9 @@ class ApertureBalancerSink(HeapBalancerSink):
     self._total = 0
     self._ema = Ema(5)
     self._time = MonoClock()
-    self._min_size = sink_properties.min_size
+    # An empty aperture never sees a request (the heap short circuits to
+    # NoMembers), so it could never grow again: keep at least one member active.
+    self._min_size = max(1, sink_properties.min_size)
     self._max_size = sink_properties.max_size
     self._min_load = sink_properties.min_load
     self._max_load = sink_properties.max_load
